@@ -261,6 +261,37 @@ class Mir:
         """best name of a call terminator's callee: resolved instance if any, else the unresolved path"""
         return t['callee'] or t['raw']
 
+    def trait_impls(self):
+        """(trait path without generics, method) -> bodies `<T as Trait>::method` of the crate"""
+        if getattr(self, '_ti', None) is None:
+            import re
+            ti = {}
+            for n in self.bodies:
+                m = re.match(r'^<(.+) as ([^<>]+?)(<.*>)?>::(\w+)$', n)
+                if m:
+                    ti.setdefault((m.group(2), m.group(4)), []).append(n)
+            self._ti = {k: sorted(v) for k, v in ti.items()}
+        return self._ti
+
+    def dyn_candidates(self, t, fmt=False):
+        """a call the compiler could not resolve to one instance (`dyn Trait` receiver, or a method of a bounded type parameter) whose trait
+        has implementations in the crate: every implementation may run (class-hierarchy analysis)"""
+        import re
+        c = self.callee_of(t)
+        if c in self.bodies or '::' not in c:
+            return []
+        # formatting machinery: `format_args!("{}", x)` stores <T as Display>::fmt as a function pointer (Argument::new_display::<T>), `x.to_string()` runs
+        # it through the blanket impl - the implementation of the crate is what runs
+        fm = re.match(r"^core::fmt::rt::Argument::<'_>::new_(display|debug|lower_hex|upper_hex|lower_exp|upper_exp|octal|binary|pointer)$", c)
+        if fmt and (fm or c in ('<T as std::string::ToString>::to_string', '<T as std::string::SpecToString>::spec_to_string')):
+            tr = {'display': 'Display', 'debug': 'Debug', 'lower_hex': 'LowerHex', 'upper_hex': 'UpperHex', 'lower_exp': 'LowerExp', 'upper_exp': 'UpperExp',
+                  'octal': 'Octal', 'binary': 'Binary', 'pointer': 'Pointer'}[fm.group(1)] if fm else 'Display'
+            ty = re.sub(r"^(&('\w+ |'\{erased\} )?(mut )?)+", '', t.get('self_ty') or '')
+            n_ = f'<{ty} as std::fmt::{tr}>::fmt'
+            return [n_] if n_ in self.bodies else []
+        tr, _, me = re.sub(r'::<[^>]*>', '', c).rpartition('::')
+        return self.trait_impls().get((tr, me), [])
+
     def call_graph(self):
         """edges between crate bodies: direct resolved calls, plus closure creation (a closure is attributed
         to the body that creates it: it may be called by whatever the creator hands it to)"""
@@ -271,6 +302,8 @@ class Mir:
                     c = self.callee_of(t)
                     if c in self.bodies:
                         g[n].add(c)
+                    else:
+                        g[n].update(self.dyn_candidates(t, fmt=True))
                     # function items / closures passed as values
                     for o in t['args']:
                         if 'fn' in o and o['fn'] in self.bodies:
@@ -560,6 +593,23 @@ def inlined(mir, name, depth=2, max_blocks=400, skip=()):
             if t['k'] != 'call':
                 continue
             callee = t['callee'] or t['raw']
+            if callee not in mir.bodies and t.get('target') is not None:
+                cands = [c_ for c_ in mir.dyn_candidates(t) if c_ not in rec and c_ not in skip and c_ != name]
+                if cands and len(cands) == len(mir.dyn_candidates(t)):
+                    # dynamic dispatch: any implementation of the crate may run - a switch on an undefined selector over one call per implementation
+                    # (an over-approximation: which one runs is decided by the type the receiver was unsized from)
+                    sel = len(j['locals'])
+                    j['locals'].append('isize')
+                    tg = []
+                    for k_, c_ in enumerate(cands):
+                        t2 = copy.deepcopy(t)
+                        t2['callee'] = c_
+                        t2['devirt'] = callee
+                        tg.append([k_, len(j['blocks'])])
+                        j['blocks'].append({'stmts': [], 'term': t2})
+                    j['blocks'][b]['term'] = {'k': 'switch', 'discr': {'copy': {'l': sel, 'p': []}}, 'targets': tg[:-1], 'otherwise': tg[-1][1], 'devirt': callee, 'span': t.get('span')}
+                    changed = True
+                continue
             if callee not in mir.bodies or callee == name or callee in rec or callee in skip:
                 continue
             cb = mir.bodies[callee]
